@@ -143,8 +143,118 @@ pub fn check(c: &Case, obs: &mut Obs) -> Result<Option<Frame>, Fail> {
     Ok(Some(f))
 }
 
+fn b64(data: &[u8]) -> String {
+    const T: &[u8; 64] = b"ABCDEFGHIJKLMNOPQRSTUVWXYZabcdefghijklmnopqrstuvwxyz0123456789+/";
+    let mut out = String::new();
+    for ch in data.chunks(3) {
+        let b = [ch[0], *ch.get(1).unwrap_or(&0), *ch.get(2).unwrap_or(&0)];
+        let n = (b[0] as u32) << 16 | (b[1] as u32) << 8 | b[2] as u32;
+        out.push(T[(n >> 18) as usize & 63] as char);
+        out.push(T[(n >> 12) as usize & 63] as char);
+        out.push(if ch.len() > 1 { T[(n >> 6) as usize & 63] as char } else { '=' });
+        out.push(if ch.len() > 2 { T[n as usize & 63] as char } else { '=' });
+    }
+    out
+}
+
+/// data URI of a real 8x8 PNG of one opaque colour (encoded with the png crate)
+fn solid_png_uri(rgb: [u8; 3]) -> String {
+    let mut bytes = Vec::new();
+    {
+        let mut enc = png::Encoder::new(&mut bytes, 8, 8);
+        enc.set_color(png::ColorType::Rgb);
+        enc.set_depth(png::BitDepth::Eight);
+        let mut w = enc.write_header().expect("png header");
+        let px: Vec<u8> = (0..64).flat_map(|_| rgb).collect();
+        w.write_image_data(&px).expect("png data");
+    }
+    format!("data:image/png;base64,{}", b64(&bytes))
+}
+
+/// The same placement options through the OTHER documented entry point, the raster builder: ImageBuilder forwards
+/// image(), image_size(), image_gap(), image_position(), image_background_shape/color() to the SVG builder, so the
+/// pixmap must show the embedded image and its frame exactly where the (separately checked) SVG geometry puts them.
+/// Sampled at 8 px per module: centre of the image = image colour; a point of the frame beside the image = frame
+/// colour; the four points one module outside the frame's sides = module or background colour per the matrix.
+pub fn check_raster(c: &Case, obs: &mut Obs) -> Result<(), Fail> {
+    const IMG: [u8; 3] = [0, 200, 0];
+    const FRAME: [u8; 3] = [0, 0, 220];
+    let mut cfg = c.cfg.clone();
+    cfg.image = Some(solid_png_uri(IMG));
+    cfg.image_bg_color = Some(ColorSpec::Rgb(FRAME));
+    cfg.image_bg_shape = Some(0); // square frame: every point of the frame rectangle is frame-coloured
+    cfg.warm = None;
+    cfg.layers.clear();
+    cfg.module_color = None;
+    cfg.background = None;
+    let bc = BuildCase::new(b"C18 RASTER".to_vec(), Opts { mode: None, level: Some(Level::L), version: Some(c.version), mask: Some(2) });
+    let built = match do_build(&bc)? {
+        Ok(b) => b,
+        Err(_) => return Ok(()),
+    };
+    let n = built.size();
+    let m = cfg.margin_eff();
+    let s_total = n + 2 * m;
+    let svg = catch(|| cfg.svg_string(&built.qr)).map_err(|p| Fail { sig: panic_sig(&p), msg: format!("SvgBuilder panicked: {}", p) })?;
+    let f = frame_of(&svg)?;
+    let k = 8u32;
+    let pm = catch(|| {
+        let mut ib = fast_qr::convert::image::ImageBuilder::default();
+        cfg.apply(&mut ib);
+        ib.fit_width(s_total as u32 * k);
+        ib.to_pixmap(&built.qr)
+    })
+    .map_err(|p| Fail { sig: panic_sig(&p), msg: format!("ImageBuilder with an embedded image panicked: {} ({})", p, cfg.to_json()) })?;
+    ensure!(pm.width() == s_total as u32 * k, "raster:size", "pixmap side {} for {} modules at {} px", pm.width(), s_total, k);
+    let px = |x: f64, y: f64| -> Option<[u8; 3]> {
+        if x < 0.0 || y < 0.0 || x >= s_total as f64 || y >= s_total as f64 {
+            return None;
+        }
+        let p = pm.pixel((x * k as f64) as u32, (y * k as f64) as u32)?.demultiply();
+        Some([p.red(), p.green(), p.blue()])
+    };
+    let vals = built.values();
+    let near = |a: [u8; 3], b: [u8; 3]| (0..3).all(|i| (a[i] as i32 - b[i] as i32).abs() <= 3);
+    // centre of the image
+    if let Some(p) = px(f.ix + f.iw / 2.0, f.iy + f.ih / 2.0) {
+        ensure!(near(p, IMG), "raster:image", "pixel at the centre of the image rectangle ({:.2}, {:.2}) is {:?}, expected the image colour {:?}: the raster builder does not place the image where the SVG geometry says ({})", f.ix + f.iw / 2.0, f.iy + f.ih / 2.0, p, IMG, cfg.to_json());
+        obs.label("raster:image_centre_checked");
+    }
+    // frame beside the image (when the frame exceeds the image by at least a quarter module)
+    let side_gap = f.ix - f.x;
+    if side_gap >= 0.25 {
+        if let Some(p) = px(f.x + side_gap / 2.0, f.y + f.h / 2.0) {
+            ensure!(near(p, FRAME), "raster:frame", "pixel inside the frame beside the image ({:.2}, {:.2}) is {:?}, expected the frame colour {:?} ({})", f.x + side_gap / 2.0, f.y + f.h / 2.0, p, FRAME, cfg.to_json());
+            obs.label("raster:frame_checked");
+        }
+    }
+    // one module outside each side of the frame: the symbol shows through
+    for (x, y) in [(f.x - 0.5, f.y + f.h / 2.0), (f.x + f.w + 0.5, f.y + f.h / 2.0), (f.x + f.w / 2.0, f.y - 0.5), (f.x + f.w / 2.0, f.y + f.h + 0.5)] {
+        let (cx, cy) = (x.floor(), y.floor());
+        // sample the centre of that module cell, only if the whole cell is outside the frame
+        let outside = cx + 1.0 <= f.x + 1e-9 || cx >= f.x + f.w - 1e-9 || cy + 1.0 <= f.y + 1e-9 || cy >= f.y + f.h - 1e-9;
+        // with a gap below half a module the alignment adjustment may leave the frame smaller than the image (the
+        // property allows it): the cell must also be clear of the image rectangle
+        let clear_of_image = cx + 1.0 <= f.ix + 1e-9 || cx >= f.ix + f.iw - 1e-9 || cy + 1.0 <= f.iy + 1e-9 || cy >= f.iy + f.ih - 1e-9;
+        if !outside || !clear_of_image {
+            continue;
+        }
+        if let Some(p) = px(cx + 0.5, cy + 0.5) {
+            let (c0, r0) = (cx as i64 - m as i64, cy as i64 - m as i64);
+            let dark = c0 >= 0 && r0 >= 0 && (c0 as usize) < n && (r0 as usize) < n && vals[r0 as usize * n + c0 as usize];
+            let want = if dark { [0u8, 0, 0] } else { [255u8, 255, 255] };
+            ensure!(near(p, want), "raster:outside_frame", "pixel ({:.1}, {:.1}) just outside the frame is {:?}, expected {:?} ({} module): the raster frame is larger or elsewhere than the SVG geometry ({})", cx + 0.5, cy + 0.5, p, want, if dark { "dark" } else { "light" }, cfg.to_json());
+        }
+    }
+    obs.nontrivial(crate::engine::hash_value(&json!({"raster": to_json(c)})));
+    Ok(())
+}
+
 pub fn replay(_e: &Engine, case: &Value, obs: &mut Obs) -> Result<(), Fail> {
     let c = from_json(case).ok_or_else(|| Fail { sig: "bad_replay".into(), msg: "cannot parse case".into() })?;
+    if case.get("raster").and_then(|x| x.as_bool()) == Some(true) {
+        return check_raster(&c, obs);
+    }
     check(&c, obs).map(|_| ())
 }
 
@@ -213,6 +323,32 @@ pub fn run(e: &'static Engine) {
             jc.run_prop(1 << 20, &strat, total / shards, to_json, |c, o| {
                 o.label("part:generated_overrides");
                 check(c, o).map(|_| ())
+            });
+        }));
+    }
+    e.par(jobs);
+    // the raster entry point with the same overrides (small symbols: a raster costs milliseconds)
+    let total: u32 = e.tier.pick(960, 9600);
+    let mut jobs: Vec<Job> = Vec::new();
+    for _ in 0..shards {
+        jobs.push(Box::new(move |jc: &mut JobCtx| {
+            let strat = (1usize..=6, prop_oneof![Just(None), (0usize..=8).prop_map(Some)], any::<[bool; 3]>(), any::<u8>())
+                .prop_flat_map(|(v, margin, present, order)| {
+                    let n = size(v) as f64;
+                    let s_total = n + 2.0 * margin.unwrap_or(4) as f64;
+                    (
+                        if present[0] { real(1.0, 0.5 * n).prop_map(Some).boxed() } else { Just(None).boxed() },
+                        if present[1] { real(0.0, 4.0).prop_map(Some).boxed() } else { Just(None).boxed() },
+                        if present[2] { (real(4.0, s_total - 4.0), real(4.0, s_total - 4.0)).prop_map(Some).boxed() } else { Just(None).boxed() },
+                    )
+                        .prop_map(move |(size_o, gap, pos)| Case {
+                            version: v,
+                            cfg: SvgCfg { margin, image: Some("x".into()), image_size: size_o, image_gap: gap, image_position: pos, order, ..SvgCfg::default() },
+                        })
+                });
+            jc.run_prop(2 << 20, &strat, total / shards, |c| { let mut j = to_json(c); j["raster"] = json!(true); j }, |c, o| {
+                o.label("part:raster_entry_point");
+                check_raster(c, o)
             });
         }));
     }
